@@ -164,7 +164,8 @@ def relaunch_pairs(obs):
     pairs = [(e["steps"], l["steps"]), (e["trains"], l["trains"]), (i["buf"], l["buf"]), (len(i["buf"]), l["len"]), (i["marker"], l["marker"]),
              (i["agent_steps"], l["steps"]), (i["trainer_trains"], l["trains"])]
     if f:
-        pairs += [(e["steps"], f["steps_before"]), (i["buf"], f["buf"])]
+        # the values the relaunched system starts from, at its first callback (incl. state the agent builds when it is wired up)
+        pairs += [(e["steps"], f["steps_before"]), (i["buf"], f["buf"]), (e.get("hidden"), f.get("hidden_before"))]
     return intern_pairs(pairs)
 
 
